@@ -6,8 +6,8 @@ EXTRA = {
     'BarnettSmartVTMF_dlog::KeyGenerationProtocol_VerifyNIZK': ['C04', 'C05', 'C08'],
     'PedersenCommitmentScheme::Verify': ['C04', 'C05'],
     'PedersenTrapdoorCommitmentScheme::Verify': ['C04', 'C17'],
-    'CanettiGennaroJareckiKrawczykRabinDSS::Verify': ['C04'],
-    'GennaroJareckiKrawczykRabinNTS::Verify': ['C04'],
+    'CanettiGennaroJareckiKrawczykRabinDSS::Verify': ['C04', 'C16'],
+    'GennaroJareckiKrawczykRabinNTS::Verify': ['C04', 'C16'],
     'TMCG_PublicKey::verify': ['C10'],
     'TMCG_PublicKey::check': ['C10'],
     'TMCG_SecretKey::decrypt': ['C10'],
